@@ -56,6 +56,9 @@ class Decoder:
 def rat(x):
     """Exact rational literal -> [n, d]."""
     fr = Fraction(x)
+    if isinstance(x, float) and fr.denominator > 10**6:
+        # a decimal literal such as 0.1 that went through a float: the generator's lattice value
+        fr = fr.limit_denominator(10**4)
     return [fr.numerator, fr.denominator]
 
 
